@@ -21,18 +21,19 @@ static void scenario() {
     for (int i = 0; i < prefill; i++) { tasks[next].id = next; s.spawn(tasks[next]); next++; }
     for (int i = 0; i < presteal; i++) { d1::task* t = s.steal_task(a, r1::no_isolation, 0); if (!t) vf_fail("setup steal failed"); seen[static_cast<T*>(t)->id]++; }
     total = next; int nspawn_in_window = 0; for (const char* p = prog; *p; p++) if (*p == 'S') nspawn_in_window++;
-    std::string who;
+    // per-thread result lists: under -tso a thread can be preempted at a plain write, so shared bookkeeping would itself race
+    static std::vector<int> got[8]; static std::string whot[8]; for (int i = 0; i < 8; i++) { got[i].clear(); whot[i].clear(); got[i].reserve(64); whot[i].reserve(64); }
     vf_liveness(1);
     auto ids = gated(1 + thieves, nullptr, [&](int i) {
         if (i == 0) { // owner
             for (const char* p = prog; *p; p++) {
                 if (*p == 'S') { tasks[next].id = next; s.spawn(tasks[next]); next++; }
-                else if (s.is_task_pool_published()) { d1::task* t = s.get_task(ed, r1::no_isolation); if (t) { int id = static_cast<T*>(t)->id; if (id < 0 || id >= next) vf_fail("owner got a task that was never spawned"); seen[id]++; who += 'o'; } else who += '-'; }
+                else if (s.is_task_pool_published()) { d1::task* t = s.get_task(ed, r1::no_isolation); if (t) { int id = static_cast<T*>(t)->id; if (id < 0 || id >= next) vf_fail("owner got a task that was never spawned"); got[0].push_back(id); whot[0] += 'o'; } else whot[0] += '-'; }
             }
-        } else { for (int k = 0; k < steals; k++) { d1::task* t = s.steal_task(a, r1::no_isolation, 0); if (t) { int id = static_cast<T*>(t)->id; if (id < 0 || id >= 512) vf_fail("thief got garbage"); seen[id]++; who += 's'; } else who += '.'; } } });
+        } else { for (int k = 0; k < steals; k++) { d1::task* t = s.steal_task(a, r1::no_isolation, 0); if (t) { int id = static_cast<T*>(t)->id; if (id < 0 || id >= 512) vf_fail("thief got garbage"); got[i].push_back(id); whot[i] += 's'; } else whot[i] += '.'; } } });
     open_window_and_join(ids);
     vf_liveness(0);
-    total = next;
+    total = next; std::string who; for (int i = 0; i < 8; i++) { for (int id : got[i]) seen[id]++; who += whot[i]; if (i < thieves) who += '|'; }
     // the owner drains what is left
     while (s.is_task_pool_published()) { d1::task* t = s.get_task(ed, r1::no_isolation); if (!t) break; seen[static_cast<T*>(t)->id]++; }
     if (s.is_task_pool_published() && !s.is_empty()) vf_fail("pool not empty after the owner drained it");
